@@ -77,6 +77,9 @@ func c10Addr(n string) common.Address {
 	case "0", "":
 		return zeroA
 	}
+	if a, ok := c10V[n]; ok { // vesting-account holders (c10_vest.go)
+		return a
+	}
 	panic("addr " + n)
 }
 
@@ -151,6 +154,9 @@ type c10World struct {
 	viewCache     map[[32]byte]*c10Views
 	viewsObserved int
 	skipViews     bool // batch mode: views are compared once, after the last call of the message
+	// locked[t][holder]: coins of token t's denomination the SDK's vesting schedule keeps locked at the block time (c10_vest.go)
+	locked     [2]map[common.Address]*big.Int
+	allowPairs [][2]common.Address // (owner, spender) pairs whose allowance view is compared in every state
 }
 
 func c10Setup() *c10World {
@@ -159,11 +165,11 @@ func c10Setup() *c10World {
 	}
 	w := world.New(world.Config{
 		NumWallets: 2,
-		Extra: []world.ExtraAccount{
+		Extra: append([]world.ExtraAccount{
 			{Account: authtypes.NewBaseAccount(c10A.Bytes(), nil, 0, 1), Coins: coins(3)},
 			{Account: authtypes.NewBaseAccount(c10B.Bytes(), nil, 0, 1), Coins: coins(1)},
 			{Account: authtypes.NewBaseAccount(c10E.Bytes(), nil, 0, 0), Coins: sdk.NewCoins(sdk.NewCoin("utwo", sdkmath.NewInt(2)))},
-		},
+		}, c10VestExtras()...),
 		Contracts: []world.Contract{{Addr: c10C, Code: asm.Forwarder(false)}, {Addr: c10D, Code: asm.Multicall(), Coins: coins(2)}},
 	})
 	w.Block(nil)
@@ -177,6 +183,12 @@ func c10Setup() *c10World {
 		c10Tok[i] = addr
 	}
 	cw.tracked = []common.Address{c10A, c10B, c10C, c10D, c10E, c10F, zeroA, world.ModuleAddr(cpctypes.ModuleName), cw.tokens[0], cw.tokens[1]}
+	for _, o := range []common.Address{c10A, c10B, c10C, c10D} {
+		for _, s := range []common.Address{c10A, c10B, c10C, c10D} {
+			cw.allowPairs = append(cw.allowPairs, [2]common.Address{o, s})
+		}
+	}
+	cw.initVesting()
 	return cw
 }
 
@@ -229,7 +241,7 @@ func (cw *c10World) exec(parent sdk.Context, op c10Op) (sdk.Context, c10Obs) {
 		panic("method " + op.Method)
 	}
 	switch op.Caller {
-	case "A", "B":
+	case "A", "B", "V1", "V2", "V3", "V4":
 		o.Caller = c10Addr(op.Caller)
 		o.Res = CallEVM(cw.w, ctx, o.Caller, tok, data, nil, 1_000_000)
 	case "C-call":
@@ -256,8 +268,14 @@ func (cw *c10World) check(m *c10Model, op c10Op, o c10Obs, post sdk.Context, key
 	}
 	t := op.Token
 	if op.Method == "bank-send" {
+		from, to, amt := c10Addr(op.X), c10Addr(op.Y), c10Amt(op.Amt)
+		// x/bank moves exactly the coins that are not locked by a vesting schedule: the send succeeds iff amount <= spendable
+		if can := cw.spendable(m, t, from).Cmp(amt) >= 0; o.Success && !can {
+			fail("bank send of %s succeeded with only %s spendable (balance %s, locked %s)", amt, cw.spendable(m, t, from), m.bal(t, from), cw.lockedOf(t, from))
+		} else if !o.Success && can {
+			fail("valid bank send failed (amount %s, spendable %s)", amt, cw.spendable(m, t, from))
+		}
 		if o.Success {
-			from, to, amt := c10Addr(op.X), c10Addr(op.Y), c10Amt(op.Amt)
 			m.Bal[t][from] = new(big.Int).Sub(m.bal(t, from), amt)
 			m.Bal[t][to] = new(big.Int).Add(m.bal(t, to), amt)
 		}
@@ -290,7 +308,8 @@ func (cw *c10World) check(m *c10Model, op c10Op, o c10Obs, post sdk.Context, key
 			}
 		} else {
 			authorised := from == caller || m.allow(t, from, caller).Cmp(amt) >= 0
-			if from != zeroA && (burn || to != zeroA) && authorised && m.bal(t, from).Cmp(amt) >= 0 {
+			// "enough coins" = enough coins that the bank layer lets the holder move: locked coins of a vesting account do not count
+			if from != zeroA && (burn || to != zeroA) && authorised && cw.spendable(m, t, from).Cmp(amt) >= 0 {
 				fail("valid %s failed: %v", op.Method, o.Res.Err)
 			}
 		}
@@ -323,6 +342,9 @@ func (cw *c10World) check(m *c10Model, op c10Op, o c10Obs, post sdk.Context, key
 	}
 	if m.bal(t, from).Cmp(amt) < 0 {
 		fail("%s succeeded with balance %s < amount %s", op.Method, m.bal(t, from), amt)
+	} else if sp := cw.spendable(m, t, from); sp.Cmp(amt) < 0 && !(amt.Sign() == 0 || (!burn && from == to)) {
+		// nothing moves for amount 0 or a transfer to oneself; everything else must be refused by x/bank
+		fail("%s moved %s of a vesting account's coins with only %s spendable (balance %s, locked %s)", op.Method, amt, sp, m.bal(t, from), cw.lockedOf(t, from))
 	}
 	dst := to
 	if burn {
@@ -363,6 +385,7 @@ type c10Views struct {
 	Bank, BalOf   [2]map[common.Address]*big.Int
 	Supply, Total [2]*big.Int
 	Allow         [2]map[[2]common.Address]*big.Int
+	VestBad       []string // vesting schedules that lock another amount than in the initial state (c10_vest.go)
 }
 
 // observe reads every view of both tokens once per distinct state (cached on the canonical key).
@@ -390,12 +413,11 @@ func (cw *c10World) observe(ctx sdk.Context, key [32]byte) *c10Views {
 		}
 		v.Supply[t] = cw.w.Supply(ctx, d)
 		v.Total[t] = view(Enc("totalSupply()"))
-		for _, o := range []common.Address{c10A, c10B, c10C, c10D} {
-			for _, s := range []common.Address{c10A, c10B, c10C, c10D} {
-				v.Allow[t][[2]common.Address{o, s}] = view(Enc("allowance(address,address)", AddrWord(o), AddrWord(s)))
-			}
+		for _, p := range cw.allowPairs {
+			v.Allow[t][p] = view(Enc("allowance(address,address)", AddrWord(p[0]), AddrWord(p[1])))
 		}
 	}
+	v.VestBad = cw.vestingUnchanged(ctx)
 	cw.viewCache[key] = v
 	cw.viewsObserved++
 	return v
@@ -427,15 +449,14 @@ func (cw *c10World) views(m *c10Model, ctx sdk.Context, key [32]byte) []string {
 		if v.Total[t].Cmp(v.Supply[t]) != 0 {
 			bad = append(bad, fmt.Sprintf("totalSupply T%d=%s, bank %s", t, v.Total[t], v.Supply[t]))
 		}
-		for _, o := range []common.Address{c10A, c10B, c10C, c10D} {
-			for _, s := range []common.Address{c10A, c10B, c10C, c10D} {
-				if x := v.Allow[t][[2]common.Address{o, s}]; x.Cmp(m.allow(t, o, s)) != 0 {
-					bad = append(bad, fmt.Sprintf("allowance T%d[%s→%s]=%s, reference %s", t, o.Hex()[36:], s.Hex()[36:], x, m.allow(t, o, s)))
-				}
+		for _, p := range cw.allowPairs {
+			o, s := p[0], p[1]
+			if x := v.Allow[t][p]; x.Cmp(m.allow(t, o, s)) != 0 {
+				bad = append(bad, fmt.Sprintf("allowance T%d[%s→%s]=%s, reference %s", t, o.Hex()[36:], s.Hex()[36:], x, m.allow(t, o, s)))
 			}
 		}
 	}
-	return bad
+	return append(bad, v.VestBad...)
 }
 
 func c10Alphabet(full bool) []c10Op {
@@ -485,6 +506,12 @@ type c10Path []c10Op
 func (cw *c10World) runPath(p c10Path, all bool) (fs []ev.Finding) {
 	ctx := cw.root
 	mf, ms := cw.initialModel(false), cw.initialModel(true)
+	if all {
+		// replay mode: the views must hold in the initial state too (same clause as at the start of every search)
+		if bad := cw.views(mf, cw.root, CanonKey(cw.w, cw.root)); len(bad) > 0 {
+			fs = append(fs, ev.Finding{Clause: "erc20-exact-view", Detail: "initial state: " + strings.Join(bad, " | "), Replay: map[string]interface{}{"path": c10Path{}}})
+		}
+	}
 	for i, op := range p {
 		nctx, o := cw.exec(ctx, op)
 		key := CanonKey(cw.w, nctx)
@@ -784,10 +811,11 @@ func runC10(replay string) int {
 		alpha []c10Op
 		depth int
 	}
-	searches := []search{{"full", full, 2}, {"reduced", reduced, 2}, {"tiny", tiny, 4}}
+	vest := c10VestAlphabet()
+	searches := []search{{"vest", vest, 2}, {"full", full, 2}, {"reduced", reduced, 2}, {"tiny", tiny, 4}}
 	budget := 150
 	if run.Thorough() {
-		searches = []search{{"full", full, 2}, {"reduced", reduced, 3}, {"tiny", tiny, 8}, {"reduced-deeper", reduced, 4}}
+		searches = []search{{"vest", vest, 2}, {"full", full, 2}, {"reduced", reduced, 3}, {"tiny", tiny, 8}, {"reduced-deeper", reduced, 4}}
 		budget = 1500
 	}
 	run.Sharded(Shards(), func(shard, n int) {
@@ -830,6 +858,32 @@ func runC10(replay string) int {
 			}
 		}
 		if shard == 0 {
+			// non-vacuity of the vesting-holder dimension, per account kind: 1 <= spendable moves, 2 > spendable is refused by
+			// x/bank, and after receiving 1 more coin 2 moves
+			for _, v := range c10VestNames {
+				for _, c := range []struct {
+					path c10Path
+					want bool
+				}{
+					{c10Path{{Token: 1, Caller: v, Method: "transfer", X: "B", Amt: "1"}}, true},
+					{c10Path{{Token: 1, Caller: v, Method: "transfer", X: "B", Amt: "2"}}, false},
+					{c10Path{{Token: 1, Caller: "A", Method: "transfer", X: v, Amt: "1"}, {Token: 1, Caller: v, Method: "transfer", X: "B", Amt: "2"}}, true},
+					{c10Path{{Token: 0, Method: "bank-send", X: "A", Y: v, Amt: "1"}, {Token: 0, Caller: v, Method: "burn", Amt: "2"}}, true},
+				} {
+					ctx, ok := cw.root, false
+					for _, op := range c.path {
+						var o c10Obs
+						ctx, o = cw.exec(ctx, op)
+						ok = o.Success
+					}
+					if ok != c.want {
+						run.Fail(ev.Finding{Clause: "alphabet-sanity", Detail: fmt.Sprintf("%v: success=%v, built to give %v", c.path, ok, c.want), Replay: map[string]interface{}{"path": c.path}})
+					}
+					run.Count("vesting_sanity_cases", 1)
+				}
+			}
+		}
+		if shard == 0 {
 			// determinism self-check: a sample path replays to the same verdict twice
 			p := c10Path{full[0], full[len(full)/2]}
 			a, b := cw.runPath(p, true), cw.runPath(p, true)
@@ -848,6 +902,6 @@ func runC10(replay string) int {
 	if _, ok := run.Coverage["exhaustive"]; !ok {
 		run.Coverage["exhaustive"] = true
 	}
-	run.Coverage["rule"] = "BFS over branch states (CacheContext tree) of a world with two ERC-20 precompiles (wei, utwo), holders A=3 B=1, forwarder contract C; alphabets: full = 2 tokens × callers {A,B,C by CALL,C by DELEGATECALL} × transfer/transferFrom/approve/burn/burnFrom × addresses {A,B,C,0,fee collector,E = holder of utwo only with sequence 0,the token contracts themselves} × amounts {0,1,2,4,2^256−1} + native bank sends; reduced = 3 callers × amounts {1,2,max} × addresses {A,B,0}; tiny = approve(1|max)/transferFrom/burnFrom/transfer between A and B on both tokens. Searches: " + strings.Join(desc, "; ") + ". Batch pass: multicall contract D (2 of each token) makes 2 (thorough: also 3) precompile calls inside one message, after prefixes {none, A approves D 2 on T0, A approves D max on T1}: all ordered pairs over an 18-call alphabet; the log list read at the end of the message must hold exactly one matching log per successful call, in order. Sharded on the first operation; every view of both tokens and the bank keeper is compared with the reference in every distinct state. states = distinct canonical state keys"
+	run.Coverage["rule"] = "BFS over branch states (CacheContext tree) of a world with two ERC-20 precompiles (wei, utwo), holders A=3 B=1, forwarder contract C, and four vesting-account holders V1 delayed / V2 continuous mid-schedule / V3 periodic after its first period / V4 permanently locked, each with 3 coins of both denominations of which the SDK's LockedCoins(block time) keeps 2 locked (tracked holders in every search: balanceOf is compared with the bank balance for all of them in every distinct state; the fee-collector and cpc module accounts are tracked too); alphabets: vest = 2 tokens × 4 vesting holders × {A transfers 1 to V, bank send A→V 1, V transfers 1|2|4 to B, V burns 1|2, bank send V→B 1|2, V approves B 2, B transferFrom V 1|2, B burnFrom V 2} with reference: succeeds iff amount <= balance − locked; full = 2 tokens × callers {A,B,C by CALL,C by DELEGATECALL} × transfer/transferFrom/approve/burn/burnFrom × addresses {A,B,C,0,fee collector,E = holder of utwo only with sequence 0,the token contracts themselves} × amounts {0,1,2,4,2^256−1} + native bank sends; reduced = 3 callers × amounts {1,2,max} × addresses {A,B,0}; tiny = approve(1|max)/transferFrom/burnFrom/transfer between A and B on both tokens. Searches: " + strings.Join(desc, "; ") + ". Batch pass: multicall contract D (2 of each token) makes 2 (thorough: also 3) precompile calls inside one message, after prefixes {none, A approves D 2 on T0, A approves D max on T1}: all ordered pairs over an 18-call alphabet; the log list read at the end of the message must hold exactly one matching log per successful call, in order. Sharded on the first operation; every view of both tokens and the bank keeper is compared with the reference in every distinct state. states = distinct canonical state keys"
 	return run.Finish()
 }
